@@ -385,6 +385,59 @@ example : (Space.mk ["z"] []).prefixFree "Inline_0" = true ∧
     (Space.mk ["z", "Inline_0__x"] []).prefixFree "Inline_0" = false ∧
     (assign "Inline_0" ["x"] ⟨["z", "Inline_0__x"], []⟩ []).toOption.isNone = true := by decide
 
+/-- **`build_scope_prefixFree`**: the precise decidable condition on the names of a build under
+    which the scope handed to `_Inline.to_onnx` of node `k` is prefix-free. Given the naming facts
+    (every visible value name / counter key is a user name, a generated `b` / `b_<c>` for a base
+    `b = <node>_<field>`, or `k'__…` reserved by another Inline node `k'`; node names likewise), it
+    suffices that no user name and no node name starts with `k__`, that `k__` is incomparable with
+    every `b_`, and with every `k'__` (`NameData.safe`). The naming facts are observed on every
+    `to_onnx` call of the oracle phase; the condition is evaluated by the driver. -/
+theorem build_scope_prefixFree (d : NameData) (k : String) (var node : Space)
+    (hf : NameFacts d var node) (hs : d.safe k = true) :
+    var.prefixFree k = true ∧ node.prefixFree k = true :=
+  safe_prefixFree d k var node hf hs
+
+/-- the Inline node's own result names `k_outputs_i` (and their enumerations) satisfy the condition -/
+theorem own_outputs_safe (k r : String) : incomp (k ++ "__") (k ++ "_o" ++ r) = true :=
+  own_outputs_incomp k r
+
+/-- under the naming facts and the condition, `_Inline.to_onnx` cannot raise -/
+theorem toOnnx_total_build (d : NameData) (c : Ctx) (g : Graph)
+    (hf : NameFacts d c.var c.node) (hs : d.safe c.nodeName = true) :
+    ∃ em, toOnnx c (normalise g) = .ok em :=
+  toOnnx_total c g (build_scope_prefixFree d c.nodeName c.var c.node hf hs).1
+    (build_scope_prefixFree d c.nodeName c.var c.node hf hs).2
+
+/-- sharpness: a user name in the family breaks the condition and makes the renaming raise -/
+example : (NameData.mk ["z", "Inline_0__x"] ["Inline_0_outputs_0"] [] ["Inline_0"]).safe "Inline_0" = false ∧
+    (NameData.mk ["z"] ["Inline_0_outputs_0", "If_0_outputs_0"] ["If_0_then_branch__Inline_0"]
+      ["Inline_0", "If_0", "If_0_then_branch__Inline_0"]).safe "Inline_0" = true := by decide
+
+/-! ### interaction with C02 (`inline:sibling-bodies-share-names`) -/
+
+/-- The renaming is one function of the name for the whole inlined model (memoised): a value that
+    two sibling bodies both define under the same inner name gets the SAME outer name in both. So the
+    emitted graph is not model-wide unique in its value names (C02's uniqueness clause fails on such
+    models), while `inline_sem` holds for them (sibling bodies never see each other's values). -/
+theorem sibling_bodies_share_names (ρ ν : String → String) (a b : Node) (x : String)
+    (ha : x ∈ a.outs) (hb : x ∈ b.outs) :
+    ρ x ∈ (Node.rename ρ ν a).outs ∧ ρ x ∈ (Node.rename ρ ν b).outs := by
+  obtain ⟨_, _, _, oa, _⟩ := a
+  obtain ⟨_, _, _, ob, _⟩ := b
+  simp only [Node.outs] at ha hb
+  simp only [Node.rename, Node.outs]
+  exact ⟨List.mem_map.mpr ⟨x, ha, rfl⟩, List.mem_map.mpr ⟨x, hb, rfl⟩⟩
+
+/-- concrete instance: `If` whose branches both define `tmp`: both emitted branches define
+    `Inline_0__tmp` -/
+example :
+    ((toOnnx ⟨"Inline_0", ["z", "c"], ["r"], ⟨["z", "c", "r"], []⟩, ⟨["Inline_0"], []⟩⟩
+      (.mk ["x", "k"] [] [.mk "" ⟨"", "If", "", none⟩ ["k"] ["y"]
+          [.mk [] [] [.mk "" ⟨"", "Identity", "", none⟩ ["x"] ["tmp"] []] ["tmp"] [],
+           .mk [] [] [.mk "" ⟨"", "Neg", "", none⟩ ["x"] ["tmp"] []] ["tmp"] []]] ["y"] [])).toOption.map
+      fun em => em.nodes.map fun n => n.subs.map fun g => g.nodes.map (·.outs))
+      = some [[[["Inline_0__tmp"]], [["Inline_0__tmp"]]]] := by decide
+
 /-! ### `adapt_inline` -/
 
 theorem normalise_idem (h : Graph) (hi : h.inits = []) : normalise h = h := by
